@@ -9,10 +9,12 @@ PROP = {
             timeout_quick=600, timeout_thorough=3600),
         job("server-send", "core", "./server/", "server",
             ["harness/core/server/c05_send_test.go"], "^TestVerifC05ServerSend$", ["server-send"]),
+        job("server-session", "core", "./server/", "server",
+            ["harness/core/server/c05_session_test.go"], "^TestVerifC05ServerSession$", ["server-session"]),
         job("client-send", "core", "./client/", "client",
             ["harness/core/client/c05_send_test.go"], "^TestVerifC05Client", ["client-send", "client-session"]),
     ],
-    "parallel": 3,
+    "parallel": 4,
     "min_events": 1000,
     "rule": ("split: boundary grid over (payload size, address length, datagram limit) incl. limit<=header, "
              "255/256/257 fragments, last fragment of 1 byte, plus PRNG points; each split message is sent "
@@ -27,7 +29,10 @@ PROP = {
              "messages through ONE udpConn, most needing the same fragment count, some cut short mid-send (send "
              "error on a later fragment, datagram limit shrinking between two fragments); all datagrams that left "
              "go in order into one far-side Defragger: every emission must be a message handed to Send and every "
-             "completely sent message must be delivered once. A case is non-trivial when the message was actually split "
+             "completely sent message must be delivered once. server-session: a real udpSessionManager relays 3..10 replies "
+             "of 1..3x the datagram budget while the limit reported by the fake QUIC layer moves down and up between "
+             "replies; every FRAGMENT handed to the datagram layer must fit the limit in force, and what left must "
+             "reassemble to exactly the replies read from the socket. A case is non-trivial when the message was actually split "
              "(>=2 fragments); distinct = distinct (sizes, arrival order)."),
     "assumptions": [
         "concurrent messages carry distinct packet IDs (precondition stated by the property)",
